@@ -37,7 +37,7 @@ for n in range(N):
     cands = []
     for i, ln in enumerate(src):
         t = ln.strip()
-        if not t or t.startswith(("//", "*", "/*", "#")) or "assert" in ln or "VERIF" in ln or "throw" in ln or "template" in ln or "typedef" in ln or "using " in ln: continue
+        if not t or t.startswith(("//", "*", "/*", "#")) or "assert" in ln or "VERIF" in ln or "throw" in ln or "template" in ln or "typedef" in ln or "using " in ln or "operator" in ln or "GCC_DIAG" in ln or "virtual" in ln or t.startswith(("class ", "struct ", "friend ", "static const", "enum ")) or "std::cerr" in ln or "std::cout" in ln: continue
         for k, (pat, rep) in enumerate(OPS):
             for m in re.finditer(pat, ln):
                 cands.append((i, k, m.start()))
